@@ -4,7 +4,8 @@ Model of Range header parsing and canonicalisation:
 * `strtoll(start, &end, 10)` with `errno` (ERANGE) as used by `httpHeaderParseOffset` (src/HttpHeaderTools.cc);
 * `Range<int64_t, uint64_t>` (src/base/Range.h): `intersection`, `size`;
 * `strListGetItem(str, ',', …)` (src/StrList.cc): leading delimiter skip, quote/escape aware scan, right trim;
-* `HttpHdrRangeSpec::parseInit`, `::canonize`, `::mergeWith` (compiled-out branch) and
+* `parseBytePos` and `HttpHdrRangeSpec::parseInit` (as of squid commit cc9716a: byte positions are `1*DIGIT` ending at the
+  item boundary), `::canonize`, `::mergeWith` (compiled-out branch) and
   `HttpHdrRange::parseInit`, `::getCanonizedSpecs`, `::merge`, `::canonize(int64_t)` (src/HttpHdrRange.cc).
 
 `int64_t` arithmetic is modelled explicitly: every signed `+`/`-` of the code is a checked operation and leaving the range of
@@ -57,32 +58,36 @@ def clampLL (v : Int) : Int := if v > LLONG_MAX then LLONG_MAX else if v < LLONG
 
 structure Strtoll where
   value : Int
+  /-- the text `*end` points at -/
+  rest : Bytes
   /-- `end == start`: no conversion -/
   noDigits : Bool
   /-- `errno == ERANGE` -/
   erange : Bool
 deriving Repr, DecidableEq
 
-def strtollDigits (neg : Bool) (u : Bytes) : Strtoll :=
+/-- the digits after white space and sign; `s` is the whole text (`end = start` when nothing converts) -/
+def strtollDigits (s : Bytes) (neg : Bool) (u : Bytes) : Strtoll :=
   match u with
   | d :: _ =>
     if isDigit d then
       let v : Int := if neg then -((digitsVal u 0).1 : Int) else ((digitsVal u 0).1 : Int)
-      { value := clampLL v, noDigits := false, erange := decide (v > LLONG_MAX) || decide (v < LLONG_MIN) }
-    else { value := 0, noDigits := true, erange := false }
-  | [] => { value := 0, noDigits := true, erange := false }
+      { value := clampLL v, rest := (digitsVal u 0).2, noDigits := false,
+        erange := decide (v > LLONG_MAX) || decide (v < LLONG_MIN) }
+    else { value := 0, rest := s, noDigits := true, erange := false }
+  | [] => { value := 0, rest := s, noDigits := true, erange := false }
 
 def strtoll (s : Bytes) : Strtoll :=
   let su := takeSign (skipSpace s)
-  strtollDigits su.1 su.2
+  strtollDigits s su.1 su.2
 
-/-- `httpHeaderParseOffset(start, &value)` (the `endPtr` argument is not used by the Range code): `none` = false -/
-def parseOffset (start : Bytes) : Option Int :=
+/-- `httpHeaderParseOffset(start, &value, &end)`: the value and the number of bytes `end - start`; `none` = false -/
+def parseOffset (start : Bytes) : Option (Int × Nat) :=
   let r := strtoll start
   if r.erange && r.value == 0 then none                                         -- `errno && !res`
   else if r.erange && (r.value == LLONG_MIN || r.value == LLONG_MAX) then none   -- "huge offset"
   else if r.noDigits then none                                                   -- `start == end`
-  else some r.value
+  else some (r.value, start.length - r.rest.length)
 
 /-! ### Range<int64_t, uint64_t> -/
 
@@ -118,14 +123,30 @@ def dashIndex : Bytes → Option Nat
   | [] => none
   | c :: r => if c = 45 then some 0 else (dashIndex r).map (· + 1)
 
-/-- the last-byte-pos part of `parseInit`: `p` is the text after the `-`, `off` the first-byte-pos already parsed -/
-def parseLast (off : Int) (p : Bytes) : SpecParse :=
-  match parseOffset p with
+/-- `parseBytePos(start, end, value)` (file-static, HttpHdrRange.cc): `1*DIGIT` occupying exactly `[start, end)`;
+`t` is the text from `start` to the end of the header, `len` is `end - start` (0 when `start >= end`) -/
+def parseBytePos (t : Bytes) (len : Nat) : Option Int :=
+  if len = 0 then none                               -- `start >= end`
+  else match t with
+    | [] => none                                     -- `*start` is the terminating NUL
+    | d :: _ =>
+      if !isDigit d then none                        -- `!xisdigit(*start)`: no white space, no sign
+      else match parseOffset t with
+        | none => none
+        | some (v, consumed) =>
+          if consumed ≠ len then none                -- `parsedEnd != end`: trailing garbage, or the number runs on
+          else if known v then some v else none
+
+/-- the last-byte-pos part of `parseInit`: `p` is the text after the `-`, `plen` what is left of the item,
+`off` the first-byte-pos already parsed -/
+def parseLast (off : Int) (p : Bytes) (plen : Nat) : SpecParse :=
+  match parseBytePos p plen with
   | none => .invalid
   | some last =>
-    if !known last then .invalid
-    else if last < off then .invalid                 -- RFC 2616 s14.35.1 MUST: last-byte-pos >= first-byte-pos
-    else match add64 last 1 with                     -- `HttpRange aSpec(offset, last_pos + 1)`
+    if last < off then .invalid                      -- RFC 2616 s14.35.1 MUST: last-byte-pos >= first-byte-pos
+    else
+      let last' := if last = LLONG_MAX then last - 1 else last   -- "No representation has a byte at position INT64_MAX"
+      match add64 last' 1 with                       -- `HttpRange aSpec(offset, last_pos + 1)`
       | .error f => .fault f
       | .ok e =>
         match (HttpRange.mk off e).size with         -- `length = aSpec.size()`
@@ -134,24 +155,23 @@ def parseLast (off : Int) (p : Bytes) : SpecParse :=
 
 /-- the branch of `parseInit` for items not starting with `-`, once the first `-` was found at index `k < flen` -/
 def parseFirst (field : Bytes) (flen k : Nat) : SpecParse :=
-  match parseOffset field with
+  match parseBytePos field k with                    -- `parseBytePos(field, p, offset)`
   | none => .invalid
   | some off =>
-    if !known off then .invalid
-    else if k + 1 < flen then parseLast off (field.drop (k + 1))   -- "do we have last-pos ?"
-    else .ok ⟨off, Unknown⟩                                        -- trailer
+    if k + 1 < flen then parseLast off (field.drop (k + 1)) (flen - (k + 1))   -- "do we have last-pos ?"
+    else .ok ⟨off, Unknown⟩                                                    -- trailer
 
-/-- the suffix-byte-range-spec branch: `rest` is the text after the leading `-` -/
-def parseSuffix (rest : Bytes) : SpecParse :=
-  match parseOffset rest with
+/-- the suffix-byte-range-spec branch: `rest` is the text after the leading `-`, `flen` the item length -/
+def parseSuffix (rest : Bytes) (flen : Nat) : SpecParse :=
+  match parseBytePos rest (flen - 1) with            -- `parseBytePos(field + 1, fieldEnd, length)`
   | none => .invalid
-  | some len => if known len then .ok ⟨Unknown, len⟩ else .invalid
+  | some len => .ok ⟨Unknown, len⟩
 
 /-- `HttpHdrRangeSpec::parseInit(field, flen)`; `field` is the text from the start of the item to the end of the header -/
 def parseSpec (field : Bytes) (flen : Nat) : SpecParse :=
   if flen < 2 then .invalid else
   match field with
-  | 45 :: rest => parseSuffix rest                 -- `*field == '-'`
+  | 45 :: rest => parseSuffix rest flen            -- `*field == '-'`
   | _ =>
     match dashIndex field with                     -- `strchr(field, '-')`
     | none => .invalid
